@@ -1,5 +1,6 @@
 import OtelVerif.Common.Line
 import OtelVerif.Model.C01
+import OtelVerif.Model.C01Err
 import OtelVerif.Model.C01Trace
 import OtelVerif.Model.C01Codec
 /-! driver for C01: models `c01-pq` (queue machine with deaths) and `c01-codec` (index byte codecs) -/
@@ -35,22 +36,43 @@ def showRes : Res → String
   | .doneOk => "ok"
   | .doneUnknown => "unknown"
   | .shutOk => "ok"
+  | .err => "err"
 
-/-- fire `l`, then continue the pending operation; the incarnation dies right after its `die`-th storage call
-    (die = 0: no death planned).  Returns the configuration and whether the death happened. -/
-def runOp (c : Cfg) (l : Label) (die : Nat) : Cfg × Bool :=
-  let c0 := c.calls
-  let rec go (fuel : Nat) (c : Cfg) : Cfg × Bool :=
+/-- which give-up point of the error machine a firing is at (for the finding's signature) -/
+def dropTag (c : Cfg) (l : Label) : String :=
+  match l, c.ph with
+  | .start, _ => "start-index-read-error"
+  | _, .live _ (.moving _) => "recovery-move-error-orphans-request"
+  | _, .live _ .init1 => "recovery-read-error-orphans-dispatched"
+  | _, .live _ .init2 => "recovery-read-error-orphans-dispatched"
+  | _, .live _ (.init3 _) => "recovery-read-error-orphans-dispatched"
+  | _, _ => "dequeue-batch-error-drops-request"
+
+/-- fire `l`, then continue the pending operation with `tick`s.  The storage calls of the operation whose 1-based
+    numbers are in `errs` return an error (`LabelE.fail` right before the firing that makes that call); the incarnation
+    dies right after its `die`-th storage call (die = 0: no death planned).  Returns the configuration, whether the
+    death happened, and the requests given up together with the tag of the give-up point. -/
+def runOp (ce : CfgE) (l : Label) (die : Nat) (errs : List Nat) : CfgE × Bool × List (Nat × String) :=
+  let c0 := ce.base.calls
+  let step (ce : CfgE) (l : Label) (tags : List (Nat × String)) : CfgE × List (Nat × String) :=
+    let ce1 := fireE ce (.fail (errs.contains (ce.base.calls - c0 + 1)))
+    let ce2 := fireE ce1 (.op l)
+    let newDropped := ce2.dropped.take (ce2.dropped.length - ce.dropped.length)
+    (ce2, newDropped.map (fun r => (r.id, dropTag ce.base l)) ++ tags)
+  let rec go (fuel : Nat) (ce : CfgE) (tags : List (Nat × String)) : CfgE × Bool × List (Nat × String) :=
     match fuel with
-    | 0 => (c, false)
+    | 0 => (ce, false, tags)
     | fuel + 1 =>
-      if die > 0 ∧ c.calls - c0 ≥ die then (fire c .crash, true)
-      else if c.idle || !c.alive then (c, false)
-      else go fuel (fire c .tick)
-  go 100000 (fire c l)
+      if die > 0 ∧ ce.base.calls - c0 ≥ die then (fireE (fireE ce (.fail false)) (.op .crash), true, tags)
+      else if ce.base.idle || !ce.base.alive then (fireE ce (.fail false), false, tags)
+      else
+        let (ce', tags') := step ce .tick tags
+        go fuel ce' tags'
+  let (ce1, tags1) := step ce l []
+  go 100000 ce1 tags1
 
 structure DS where
-  c : Cfg := init {}
+  ce : CfgE := initE {}
   lastOp : List String := []
   ts : TState := {}
   implOut : List (Nat × Nat) := []     -- implementation's outstanding hand-offs: index ↦ id
@@ -58,20 +80,42 @@ structure DS where
   unreach : Option String := Option.none     -- stored but not reachable from ri/wi/di
   bad : Option String := Option.none
   corrupted : Bool := false                  -- the harness deleted a stored item behind the queue's back (extension)
+  dropTags : List (Nat × String) := []       -- requests the MODEL says the code gives up on a storage error (id ↦ where)
+  errLoss : Option String := Option.none     -- first such request actually lost on the implementation
+
+def DS.c (s : DS) : Cfg := s.ce.base
 
 def obsLine (res : String) (c : Cfg) : String :=
   s!"obs r={res} size={showSize c} {showStore c.st}"
+
+/-- `3:7/2;4:9/1` → [(3,7),(4,9)] -/
+def parseItems (v : String) : Option (List (Nat × Nat)) :=
+  if v = "-" then some [] else
+  (v.splitOn ";").mapM (fun e =>
+    match e.splitOn ":" with
+    | [k, body] =>
+      match k.toNat?, (body.splitOn "/").head?.bind String.toNat? with
+      | some k, some id => some (k, id)
+      | _, _ => Option.none
+    | _ => Option.none)
+
+def parseList (v : String) : Option (List Nat) :=
+  if v = "-" then some [] else (v.splitOn ",").mapM String.toNat?
+
+def optNat (v : String) : Option (Option Nat) :=
+  if v = "-" then some Option.none else v.toNat?.map some
 
 def pqOnOp (s : DS) (toks : List String) : DS × List String :=
   let s := { s with lastOp := toks }
   let die := (kvNat toks "die").getD 0
   let alive := s.c.alive
+  let errs := ((kv toks "errs").bind parseList).getD []
   let finish (l : Label) (okRes : Cfg → String) : DS × List String :=
-    let (c', died) := runOp s.c l die
-    ({ s with c := c' }, [obsLine (if died then "died" else okRes c') c'])
+    let (ce', died, tags) := runOp s.ce l die errs
+    ({ s with ce := ce', dropTags := tags ++ s.dropTags }, [obsLine (if died then "died" else okRes ce'.base) ce'.base])
   match toks.head? with
   | some "start" => if alive then (s, ["obs bad-op"]) else finish .start (fun _ => "ok")
-  | some "exit" => ({ s with c := fire s.c .crash }, [obsLine "ok" (fire s.c .crash)])
+  | some "exit" => ({ s with ce := fireE s.ce (.op .crash) }, [obsLine "ok" (fire s.c .crash)])
   | some "offer" =>
     match kvNat toks "id", kvNat toks "sz" with
     | some id, some sz => if !alive then (s, ["obs bad-op"]) else finish (.offer ⟨id, sz⟩) (fun c => showRes c.res)
@@ -90,26 +134,9 @@ def pqOnOp (s : DS) (toks : List String) : DS × List String :=
     match kvNat toks "key" with
     | some key =>
       let c' := { s.c with st := { s.c.st with items := upd s.c.st.items key Option.none } }
-      ({ s with c := c', corrupted := true }, [obsLine "ok" c'])
+      ({ s with ce := { s.ce with base := c' }, corrupted := true }, [obsLine "ok" c'])
     | Option.none => (s, ["obs bad-op"])
   | _ => (s, ["obs bad-op"])
-
-/-- `3:7/2;4:9/1` → [(3,7),(4,9)] -/
-def parseItems (v : String) : Option (List (Nat × Nat)) :=
-  if v = "-" then some [] else
-  (v.splitOn ";").mapM (fun e =>
-    match e.splitOn ":" with
-    | [k, body] =>
-      match k.toNat?, (body.splitOn "/").head?.bind String.toNat? with
-      | some k, some id => some (k, id)
-      | _, _ => Option.none
-    | _ => Option.none)
-
-def parseList (v : String) : Option (List Nat) :=
-  if v = "-" then some [] else (v.splitOn ",").mapM String.toNat?
-
-def optNat (v : String) : Option (Option Nat) :=
-  if v = "-" then some Option.none else v.toNat?.map some
 
 /-- the search oracle: consumes the IMPLEMENTATION's observation of the last op -/
 def pqOnObs (s : DS) (toks : List String) : DS :=
@@ -144,23 +171,42 @@ def pqOnObs (s : DS) (toks : List String) : DS :=
       let st : Store := { ri := ri, wi := wi }
       let reach := items.filter (fun p => di.contains p.1 || (st.R ≤ p.1 && p.1 < st.W))
       let ts0 := (evs1 ++ evs2 ++ evs3).foldl TState.step s.ts
-      let ts1 := ts0.step (.dump (reach.map (·.2)))
+      -- requests the model says the code gives up after a storage error are excused here (partial statement) …
+      let excused := s.dropTags.map (·.1)
+      let ts1 := ts0.step (.dump (reach.map (·.2) ++ excused))
+      -- … and reported separately when the implementation really lost one (full statement under errors)
+      let errLoss := match s.errLoss with
+        | some e => some e
+        | Option.none =>
+          match ts0.accepted.find? (fun id => !(ts0.finalised.contains id) && !((reach.map (·.2)).contains id) && excused.contains id) with
+          | some id => some s!"{(s.dropTags.lookup id).getD "?"} id={id}"
+          | Option.none => Option.none
       let tag := opk ++ (if died then "-died" else "") ++ (if opk = "done" then "-" ++ (kv s.lastOp "oc").getD "?" else "")
       let lostAt := match s.lostAt, ts0.lost, ts1.lost with
         | Option.none, Option.none, some (id, _) =>
           some (if items.any (fun p => p.2 == id) then s!"unreachable/{tag} id={id}" else s!"lost/{tag} id={id}")
         | l, _, _ => l
-      { s with ts := ts1, implOut := implOut3, lostAt := lostAt }
+      { s with ts := ts1, implOut := implOut3, lostAt := lostAt, errLoss := errLoss }
     | _, _, _, _ => { s with bad := some ("unparsable obs: " ++ " ".intercalate rest) }
   | _ => s
 
 def pqOnEnd (s : DS) : List String :=
   if s.corrupted then [] else   -- the property is not claimed when storage contents vanish; differential only
+  if s.ce.poisoned then
+    -- the first call of a start-up failed: the code restarts both indexes from 0 over the stored data
+    match s.ts.accepted.find? (fun id => !(s.ts.finalised.contains id) && !(s.ts.handed.contains id)) with
+    | some id => [s!"prop errloss=FAIL sig=C01/err/start-index-read-error-resets-queue id={id} accepted request lost after Batch(get ri, get wi) returned an error"]
+    | Option.none => []
+  else
+  let errl := match s.errLoss with
+    | some e => [s!"prop errloss=FAIL sig=C01/err/{e} request given up after a storage error (not a death) and lost"]
+    | Option.none => ["prop errloss=ok"]
+  errl ++
   let stored := match s.bad, s.lostAt with
     | some b, _ => s!"prop stored=FAIL sig=C01/harness/unparsable {b}"
     | Option.none, some l => s!"prop stored=FAIL sig=C01/{l} accepted request neither finalised nor recoverable from storage"
     | Option.none, Option.none => "prop stored=ok"
-  let handed := match s.ts.accepted.find? (fun id => !(s.ts.handed.contains id)) with
+  let handed := match s.ts.accepted.find? (fun id => !(s.ts.handed.contains id) && !((s.dropTags.map (·.1)).contains id)) with
     | some id => s!"prop handed=FAIL sig=C01/never-handed id={id} accepted request was never handed over although the case ends with restart+drain"
     | Option.none => "prop handed=ok"
   [stored, handed]
@@ -170,7 +216,7 @@ def pqHandler : Handler DS where
   onCase := fun s toks =>
     let cap := (kvNat toks "cap").getD 0
     let rs := (kv toks "sizer").getD "req" == "req"
-    { s with c := init { cap := cap, reqSized := rs } }
+    { s with ce := initE { cap := cap, reqSized := rs } }
   onOp := pqOnOp
   onObs := pqOnObs
   onEnd := pqOnEnd
